@@ -80,22 +80,42 @@ func (c07) Gen(r *sim.Rand, tier string, run uint64) *sim.Scenario {
 			ops = append(ops, genComment(r))
 		}
 	}
+	var baseOp *sim.Op
+	if set, base := genBase(r, 200); set {
+		base &= 0x7FFFFF
+		baseOp = &sim.Op{K: "setbase", N: []int64{int64(base)}}
+	}
+	// width assumptions may be announced before the base is set
+	lead := 0
+	if baseOp != nil && r.Chance(1, 3) {
+		for lead < len(ops) && (ops[lead].K == "asep" || ops[lead].K == "arep") {
+			lead++
+		}
+	}
 	if r.Chance(1, 4) && len(ops) >= 2 {
 		// part of the sequence is emitted through a Clone and appended back: still one
 		// straight-line sequence of emitter calls the assembler accepts
 		a := r.Intn(len(ops))
+		if baseOp != nil && lead == 0 && r.Chance(1, 3) {
+			a = 0
+		}
 		b := a + 1 + r.Intn(len(ops)-a)
 		var out []sim.Op
-		out = append(out, ops[:a]...)
-		out = append(out, sim.Op{K: "clone"})
+		if baseOp != nil && a == 0 && lead == 0 {
+			// the split lies before SetBase: the clone is given the base
+			out = append(out, sim.Op{K: "clone"}, *baseOp)
+			baseOp = nil
+		} else {
+			out = append(out, ops[:a]...)
+			out = append(out, sim.Op{K: "clone"})
+		}
 		out = append(out, ops[a:b]...)
 		out = append(out, sim.Op{K: "append"})
 		out = append(out, ops[b:]...)
 		ops = out
 	}
-	if set, base := genBase(r, 200); set {
-		base &= 0x7FFFFF
-		ops = append([]sim.Op{{K: "setbase", N: []int64{int64(base)}}}, ops...)
+	if baseOp != nil {
+		ops = append(append(append([]sim.Op{}, ops[:lead]...), *baseOp), ops[lead:]...)
 	}
 	sc.Ops = ops
 	sc.Cfg["a"] = int64(r.Intn(6)) // initial accumulator: bounds MVN's repeat count
